@@ -494,7 +494,12 @@ func pureFunc(fn *ssa.Function, depth int) bool {
 	ok := true
 	instrsOf(fn, func(in ssa.Instruction) {
 		switch x := in.(type) {
-		case *ssa.Store, *ssa.MapUpdate, *ssa.Send, *ssa.Go, *ssa.Defer, *ssa.Panic:
+		case *ssa.Store:
+			// a store into a local (a spilled value receiver or parameter) is not an effect
+			if _, isLocal := traceAddrOpt(x.Addr, false).Root.(*ssa.Alloc); !isLocal {
+				ok = false
+			}
+		case *ssa.MapUpdate, *ssa.Send, *ssa.Go, *ssa.Defer, *ssa.Panic:
 			ok = false
 		case *ssa.Call:
 			if _, isB := x.Call.Value.(*ssa.Builtin); isB {
